@@ -11,6 +11,9 @@ if __name__ == "__main__":
     from props import C13
 
     req = json.load(sys.stdin)
+    if "seeded" in req:
+        json.dump({"rows": C13.seeded_rows(req["seeded"], req["nproc"])}, sys.stdout)
+        sys.exit(0)
     out = C13.call_batch(req["objects"], req["op"], req["op"][5])
     json.dump({"rows": [C13.enc_row(r, req["objects"]) for r in out["rows"]] if out["rows"] is not None else None,
                "error": out["error"]}, sys.stdout)
